@@ -119,6 +119,9 @@ def handleLIN (st : St) (n : Nat) (toks : List String) (reqs : Array LReq) : Res
       if !overlaps then
         let f := fail st n "C05" s!"update {r.tid} failed with a storage error without overlapping another write to the same log"
         st := f.st; outs := outs ++ f.out
+        if reqs.any (fun q => q.tid != r.tid && q.log != r.log) then
+          let f := fail st n "C12" s!"update {r.tid} for one log failed with a storage error although only requests naming another log ran beside it (case {cname})"
+          st := f.st; outs := outs ++ f.out
   let (found, _) := linSearch cfg reqs final 0 init {}
   if found then
     st := { st with nOK := st.nOK + 1 }
@@ -127,6 +130,18 @@ def handleLIN (st : St) (n : Nat) (toks : List String) (reqs : Array LReq) : Res
     let desc := ";".intercalate (reqs.toList.map (fun r => s!"t{r.tid}:{r.kind}:{r.err}:[{r.start},{r.stop}]"))
     let f := fail st n "C05" s!"no sequential order of the requests explains the outcomes (case {cname}): {desc} final={(statesShow final).take 120}"
     st := f.st; outs := outs ++ f.out
+    -- C12: each log's requests alone (its projection of the history) must already be explained by that log's
+    -- own state; if some projection is not, the other logs' requests made the difference
+    let logs := (reqs.toList.map (·.log)).eraseDups
+    if logs.length > 1 then
+      for lg in logs do
+        let sub := reqs.filter (fun r => r.log == lg)
+        let fin := final.filter (fun p => p.1 == lg)
+        let ini := init.filter (fun p => p.1 == lg)
+        let (ok, _) := linSearch cfg sub fin 0 ini {}
+        if !ok then
+          let f := fail st n "C12" s!"the outcomes of one log's requests are not explained by that log's requests alone (case {cname}): requests naming another log changed them"
+          st := f.st; outs := outs ++ f.out
   -- no reader sees a log's size go down is implied by linearizability + C01; accepted updates are never lost:
   -- the final state must be the returned bytes of some accepted update of that log, or the initial one
   for p in final do
